@@ -153,7 +153,32 @@ func dohProbe(n *simnet.Net, addr string, ip netip.Addr, raw []byte) (po probeOu
 	return describeFrames([][]byte{body}, "http 200")
 }
 
+// failingBody delivers its data and then fails, as the body of an upload whose
+// sender gives up before the announced length is reached.
+type failingBody struct {
+	data []byte
+	off  int
+}
+
+func (b *failingBody) Read(p []byte) (n int, err error) {
+	if b.off >= len(b.data) {
+		return 0, io.ErrUnexpectedEOF
+	}
+	n = copy(p, b.data[b.off:])
+	b.off += n
+
+	return n, nil
+}
+
+func (b *failingBody) Close() error { return nil }
+
 func rawDoH(n *simnet.Net, addr string, ip netip.Addr, raw []byte) (status int, body []byte) {
+	return rawDoHUpload(n, addr, ip, raw, false)
+}
+
+// rawDoHUpload posts raw; with abort set the request announces more octets
+// than it carries and is given up once they are sent.
+func rawDoHUpload(n *simnet.Net, addr string, ip netip.Addr, raw []byte, abort bool) (status int, body []byte) {
 	h2 := &http2.Transport{
 		TLSClientConfig: clientTLS("dns.sim.test", "h2"),
 		DialTLSContext: func(ctx context.Context, _, _ string, cfg *tls.Config) (net.Conn, error) {
@@ -172,6 +197,11 @@ func rawDoH(n *simnet.Net, addr string, ip netip.Addr, raw []byte) (status int, 
 	defer h2.CloseIdleConnections()
 
 	req, _ := http.NewRequest(http.MethodPost, "https://dns.sim.test/dns-query", bytes.NewReader(raw))
+	if abort {
+		req.Body = &failingBody{data: raw}
+		req.GetBody = nil
+		req.ContentLength = int64(len(raw) + 7)
+	}
 	req.Header.Set("Content-Type", "application/dns-message")
 	ctx, cancel := context.WithTimeout(context.Background(), 8*time.Second)
 	defer cancel()
@@ -293,6 +323,10 @@ func runC06(s *kernel.Sim, _ string) {
 	for i := range sizes {
 		sizes[i] = kernel.Pick(t, []int{0, 0, 30, 200, 450, 700}, "victim-size")
 	}
+	aborted := make([]bool, nHist)
+	for i := range aborted {
+		aborted[i] = t.Chance(1, 4, "doh-upload-aborted")
+	}
 	lenPrefix := t.Choose(3, "prefix-mismatch")
 	s.Logf("probe %s (% x), history of %d victim queries %v", kind, raw, nHist, sizes)
 
@@ -317,7 +351,14 @@ func runC06(s *kernel.Sim, _ string) {
 		}
 		_, _ = streamExchange(tk, n, addrDNS, nil, chunks, false)
 		_, _ = streamExchange(tk, n, addrDoT, clientTLS("dns.sim.test"), chunks, false)
-		for _, q := range hist {
+		for i, q := range hist {
+			if aborted[i] {
+				// An upload given up before its announced end.
+				_, _ = rawDoHUpload(n, addrDoH, vip, q, true)
+				tk.Fault("doh-upload-aborted")
+
+				continue
+			}
 			_ = dohProbe(n, addrDoH, vip, q)
 		}
 		_ = doqExchange(n, addrDoQ, vip, hist)
